@@ -172,6 +172,8 @@ func (f *Frame) instr(ins ssa.Instruction, st *State) bool {
 		}
 		if x.Call.IsInvoke() || x.Call.StaticCallee() == nil {
 			d.fnv = f.val(x.Call.Value, st)
+		} else if mc, ok := x.Call.Value.(*ssa.MakeClosure); ok {
+			d.fnv = f.val(mc, st)
 		}
 		un.nlocal++
 		d.key = fmt.Sprintf("$defer%d", un.nlocal)
